@@ -20,7 +20,8 @@ ID = 'C20'
 LEVEL = 'exploration'
 TECHNIQUE = 'bounded exhaustive program enumeration; graph edges vs generator terms and vs the all-branch read set of the real generated code over recording values'
 RULE = ('strata S1, S2, S4 (8 quick / 12 thorough RHS options), S3 up to 4 (quick) / 5 (thorough) nodes, specials (several left-hand-side terms, offsets >= 10); the graph judged is the one returned after an earlier result was taken apart; per equation: node + equation attribute, in-edges among '
-        'variable-like nodes == generator terms == cells read on some branch outcome. non-trivial = accepted program with at least one edge; distinct by script text')
+        'variable-like nodes == generator terms == cells read on some branch outcome. non-trivial = accepted program with at least one edge; distinct by script text'
+        ' Each program respelled (tight / wide assignment sign, blanks before every index bracket, a trailing comment holding terms and further hashes) gives the same graph.')
 ASSUMPTIONS = [
     '"actually read" = read on at least one branch outcome (conditional expressions read one branch)',
     'reads performed inside verbatim fragments are not expected to have edges (backticked code is opaque to the parser)',
@@ -139,7 +140,9 @@ def check_program(p):
     # the graph does not depend on how the script is spaced: no blanks round the assignment sign, none round operators
     if not out and '`' not in script:
         for tag, respelled in (('tight-assignment', '\n'.join(line.replace(' = ', '=', 1) for line in script.split('\n'))),
-                               ('wide-assignment', '\n'.join(line.replace(' = ', '   =   ', 1) for line in script.split('\n')))):
+                               ('wide-assignment', '\n'.join(line.replace(' = ', '   =   ', 1) for line in script.split('\n'))),
+                               ('blanks-before-index', re.sub(r'([A-Za-z0-9_}>])\[', r'\1  [', script)),
+                               ('comment-with-terms-and-hashes', '\n'.join(line + '  # was Hq[-3] # + <zq9> # {pq}[1]' for line in script.split('\n')))):
             try:
                 G2 = tools.symbols_to_graph(fsic.parse_model(respelled))
             except (ParserError, SymbolError, IndentationError):
@@ -150,6 +153,17 @@ def check_program(p):
             if sorted(G2.nodes) != sorted(G.nodes) or sorted(G2.edges) != sorted(G.edges):
                 out.append(('respelled:%s' % tag, sorted(G.edges)[:6], sorted(G2.edges)[:6], 'the same equations spelled %r give another graph' % respelled))
                 break
+    # "a series with no edge into y cannot influence y" at every period the class itself calls feasible: the class's lag / lead
+    # lengths cover the deepest lag and furthest lead among the edges (otherwise the first feasible period reads a wrapped-round
+    # cell - a (series, offset) pair that has no edge)
+    if not out and n_edges and '`' not in script:
+        try:
+            Model = fsic.build_model(symbols)
+            if int(Model.LAGS) < lags or int(Model.LEADS) < leads:
+                out.append(('feasible-range-shorter-than-edges', [lags, leads], [int(Model.LAGS), int(Model.LEADS)],
+                            'the class built from these symbols calls a period feasible at which a term with an edge is read from a wrapped-round cell'))
+        except Exception:
+            pass   # (whether the class builds is C13's and C15's business)
     # no edge may point into a node that is not a left-hand side
     lhs_nodes = {node_text(e.lhs.name, e.lhs.off) for e in p.eqs}
     stray = [(u, v) for u, v in G.edges if v not in lhs_nodes]
